@@ -32,6 +32,8 @@ def item(i):
 def tname(i):
     if i.get("via") == "inmod":
         return "m::T"
+    if i.get("via") == "deleg":
+        return "DelegateTr"
     return "TI" if i["mode"] == "trait" else "T"
 
 
